@@ -34,8 +34,8 @@ fn c08_user_homographs() {
 
 /// letters are *not* invoked when a lexicon word matched (invoke=0): a user match must suppress
 /// unknown words exactly like a system match
-const S_USER0: Spec = Spec { sys: L_B, user: Some(L_AB), cats: CATS_CHAIN, unk_mult: &[1, 1, 1], nr: 2, nl: 2 };
-const S_SYS0: Spec = Spec { sys: L_B_AB, user: None, cats: CATS_CHAIN, unk_mult: &[1, 1, 1], nr: 2, nl: 2 };
+pub const S_USER0: Spec = Spec { sys: L_B, user: Some(L_AB), cats: CATS_CHAIN, unk_mult: &[1, 1, 1], nr: 2, nl: 2 };
+pub const S_SYS0: Spec = Spec { sys: L_B_AB, user: None, cats: CATS_CHAIN, unk_mult: &[1, 1, 1], nr: 2, nl: 2 };
 
 //@ c08_user_match_suppresses_unknown {"desc":"with invoke=0 a user-lexicon match suppresses unknown words exactly as the same row in the system lexicon would: system {b} + user {ab} vs system {b,ab}","bounds":"N=2 \"ab\"; categories with invoke=0 for letters; 2x2 matrix","symbolic":"all costs, ids, matrix cells (shared)","functions":["Tokenizer::add_lattice_edges","UnkHandler::gen_unk_words","Lexicon::common_prefix_iterator"],"fs":2048,"unwind":7,"timeout":1800,"mem_gb":20}
 #[cfg(kani)]
@@ -47,7 +47,7 @@ fn c08_user_match_suppresses_unknown() {
 /// `su`: system lexicon with one word (id 0) + user lexicon of k rows with surface `ab` (ids
 /// 0..k); `ss`: system lexicon with the same word as id 0 and the k rows as ids 1..=k.
 #[cfg(kani)]
-fn user_vs_extended(su: &Spec, ss: &Spec) {
+pub fn user_vs_extended(su: &Spec, ss: &Spec) {
     let k = su.user.unwrap().nwords;
     let du = dict_of(su);
     // the second dictionary takes every value from the first
